@@ -204,6 +204,26 @@ func biasDriver(prop, focus string, nb func(c *caseCtx) int, tweak func(c *caseC
 			return
 		}
 		st := &eventStats{}
+		if len(d.Trace.Bias) > 0 {
+			// the importance of the request's criteria is defined with the weights the request configures
+			mp := g.M["methodParameters"].(M)
+			rw := map[string]float64{}
+			if w, ok := mp["weights"].(M); ok && g.method != "choquetIntegral" && g.method != "owa" {
+				for k, v := range w {
+					if f, isNum := v.(float64); isNum {
+						rw[k] = f
+					}
+				}
+			}
+			if ec, ok := mp["electreCriteria"].(M); ok {
+				for k, v := range ec {
+					rw[k] = numOr(v.(M), "k", 0)
+				}
+			}
+			if len(rw) > 0 {
+				d.Trace.Bias[0].In.ReqW = rw
+			}
+		}
 		is := checkTrace(g.method, d.Trace, st)
 		if msg := checkReceived(d); msg != "" {
 			is = append(is, issue{prop, "request-not-as-sent", "the bias works on other data than the request carries: " + msg})
